@@ -5,6 +5,7 @@ import (
 	"bytes"
 	"crypto/ed25519"
 	"crypto/sha256"
+	"encoding/pem"
 	"errors"
 	"fmt"
 	"sort"
@@ -175,6 +176,13 @@ func parseNames(s string) ([]certs.Name, bool) {
 	return out, true
 }
 
+// fitForBundle: the bytes are one whole certificate (what a PEM block of a bundle must hold)
+func fitForBundle(b []byte) bool {
+	var c certs.Certificate
+	n, err := c.ReadFrom(bytes.NewReader(b))
+	return err == nil && int(n) == len(b)
+}
+
 func parseTime(s, ns string, allowZero bool) (time.Time, bool) {
 	if s == "zero" {
 		return time.Time{}, allowZero && ns == "0"
@@ -299,6 +307,27 @@ func (w *world) exec(f []string) string {
 		cp := *o.c // the store keeps what it was given, later `set`s do not reach it
 		w.store.AddCertificate(&cp)
 		return "ok"
+	case len(f) >= 2 && f[0] == "addbundle" && no == 0:
+		// the objects' bytes as one PEM bundle, read back with ReadManyCertificatesPEM and added to the
+		// store certificate by certificate (certs.LoadRootStoreFromPEMFile)
+		var bundle bytes.Buffer
+		for _, id := range f[1:] {
+			o := w.getObj(id)
+			if o == nil || o.held == nil || !fitForBundle(o.held) {
+				return "bad-op"
+			}
+			pem.Encode(&bundle, &pem.Block{Type: certs.PEMTypeHopCertificate, Bytes: o.held})
+		}
+		return Guard(func() string {
+			cs, err := certs.ReadManyCertificatesPEM(&bundle)
+			if err != nil {
+				return "err"
+			}
+			for i := range cs {
+				w.store.AddCertificate(&cs[i])
+			}
+			return fmt.Sprintf("ok %d", len(cs))
+		})
 	case len(f) == 8 && f[0] == "verify" && no == 0:
 		leaf := w.getObj(f[1])
 		var opts certs.VerifyOptions
@@ -473,12 +502,19 @@ type caseGen struct {
 	intKeys  [][]byte
 	moreKeys [][]byte // further signer keys used in this case (other roots, foreign signers)
 	extras   []int    // objects of earlier scenarios, usable as distractors
+	// objects made by a `cert` line (parsed from bytes): what an issuing call returned is not
+	// what parsing its serialization gives (sub-second times), so only these go into bundles
+	fromBytes map[int]bool
 }
 
 // emitCert writes a cert line with its record as oracle and returns the object index
 func (c *caseGen) emitCert(b []byte, seed []byte) int {
 	i := c.next
 	c.next++
+	if c.fromBytes == nil {
+		c.fromBytes = map[int]bool{}
+	}
+	c.fromBytes[i] = true
 	sd := "-"
 	if seed != nil {
 		sd = fmt.Sprintf("%x", seed)
@@ -805,7 +841,26 @@ func (c *caseGen) scenario() {
 		j := r.Intn(k + 1)
 		adds[k], adds[j] = adds[j], adds[k]
 	}
+	bundled := false
+	if len(adds) >= 2 && r.Chance(1, 3) {
+		// the same additions as one PEM bundle (when every one of them is a whole certificate); the
+		// bundle holds the certificates as their bytes say, whatever `set` did to the objects since
+		fit := true
+		var ids []string
+		for _, a := range adds {
+			o := c.w.objs[a]
+			fit = fit && o != nil && o.held != nil && c.fromBytes[a] && fitForBundle(o.held)
+			ids = append(ids, strconv.Itoa(a))
+		}
+		if fit {
+			c.plain("", "addbundle %s", strings.Join(ids, " "))
+			bundled = true
+		}
+	}
 	for _, a := range adds {
+		if bundled {
+			break
+		}
 		c.plain("", "add %d", a)
 	}
 	// ---- requested name
